@@ -2,6 +2,7 @@ package endpointanalysisdiagram
 
 import (
 	"fmt"
+	"sort"
 
 	"github.com/anz-bank/sysl/pkg/mermaid"
 	"github.com/anz-bank/sysl/pkg/sysl"
@@ -33,10 +34,16 @@ func generateEndpointAnalysisDiagramHelper(m *sysl.Module,
 		result = mermaid.GeneratedHeader + "graph TD\n"
 	}
 	count := 1
-	for appName, app := range m.Apps {
+	appNames := make([]string, 0, len(m.Apps))
+	for appName := range m.Apps {
+		appNames = append(appNames, appName)
+	}
+	sort.Strings(appNames)
+	for _, appName := range appNames {
+		app := m.Apps[appName]
 		result += fmt.Sprintf(" subgraph %d[\"%s\"]\n", count, appName)
-		for epName, endPoint := range app.Endpoints {
-			statements := endPoint.Stmt
+		for _, epName := range sortedEndpointNames(app.Endpoints) {
+			statements := app.Endpoints[epName].Stmt
 			result += printEndpointAnalysisStatements(m, statements, mermaid.CleanString(epName), externalLinks)
 		}
 		result += " end\n"
@@ -46,6 +53,17 @@ func generateEndpointAnalysisDiagramHelper(m *sysl.Module,
 		result += fmt.Sprintf(" %s --> %s\n", eLink.statement, eLink.endPoint)
 	}
 	return result, nil
+}
+
+// sortedEndpointNames gives the endpoint names in alphabetical order, so that the diagram text does not depend on
+// Go's map iteration order.
+func sortedEndpointNames(endpoints map[string]*sysl.Endpoint) []string {
+	names := make([]string, 0, len(endpoints))
+	for name := range endpoints {
+		names = append(names, name)
+	}
+	sort.Strings(names)
+	return names
 }
 
 func generateMultipleAppEndpointAnalysisDiagramHelper(m *sysl.Module, appNames []string,
@@ -58,8 +76,8 @@ func generateMultipleAppEndpointAnalysisDiagramHelper(m *sysl.Module, appNames [
 	for _, appName := range appNames {
 		result += fmt.Sprintf(" subgraph %d[\"%s\"]\n", count, appName)
 		endPoints := m.Apps[appName].Endpoints
-		for epName, endPoint := range endPoints {
-			statements := endPoint.Stmt
+		for _, epName := range sortedEndpointNames(endPoints) {
+			statements := endPoints[epName].Stmt
 			result += printEndpointAnalysisStatements(m, statements, mermaid.CleanString(epName), externalLinks)
 		}
 		result += " end\n"
